@@ -273,6 +273,14 @@ func HarnessC07Request() {
 				rest = rest[5+n:]
 			}
 			check(receivedOK <= lead, "only well-formed data frames are ever delivered to user code as messages")
+			// a complete envelope whose flags are not a request's (anything but
+			// "compressed") is malformed framing: never success
+			if len(rest) >= 5 && rest[0] > 1 {
+				n := int(rest[1])<<24 | int(rest[2])<<16 | int(rest[3])<<8 | int(rest[4])
+				if len(rest) >= 5+n && c07FlagsClassified(proto, rest[0]) {
+					check(code != 0, "an envelope with flags no request may carry is malformed framing, never answered with success")
+				}
+			}
 		}
 	}
 }
@@ -476,4 +484,19 @@ func HarnessC07Oversize() {
 	check(wellFormed, "the response is well-formed")
 	check(delivered == 0, "an oversize message is not delivered")
 	check(code == int(CodeInvalidArgument) || code == int(CodeResourceExhausted), "an oversize message reaches the peer as invalid_argument or resource_exhausted, never as success")
+}
+
+// c07FlagsClassified: which invalid request flags the check classifies.  A
+// protocol's own end marker sent by the client (0x02 on a Connect stream,
+// 0x80 on gRPC-Web) is read by the shared envelope code as an end of stream;
+// the property's text does not say what a handler owes a client that sends
+// the server's marker, so those two are left out.
+func c07FlagsClassified(proto int, flags byte) bool {
+	switch proto {
+	case 0:
+		return flags&0x02 == 0
+	case 2:
+		return flags&0x80 == 0
+	}
+	return true
 }
